@@ -62,7 +62,13 @@ fn now_unix() -> i64 {
 fn typed_part<R: std::io::Read + Send + 'static>(mut r: Response<R>, case: &RespCase) -> tiny_http::ResponseBox {
     let p = case.plan;
     if p & 16 != 0 && p & 32 == 0 {
-        r = r.with_status_code(case.status);
+        // (every integer type the status can be given in)
+        r = match case.body_seed % 4 {
+            0 => r.with_status_code(case.status),
+            1 => r.with_status_code(case.status as i32),
+            2 => r.with_status_code(case.status as u32),
+            _ => r.with_status_code(case.status as i16),
+        };
     }
     if p & 1 != 0 {
         for h in case.headers.iter().filter(|h| h.via != Via::Ctor) {
